@@ -26,6 +26,15 @@
 // Halfedges, what Impl::Transform does), the method runs, and the second Impl's arrays must be
 // unchanged and the event stream accepted.
 //
+// Fourth family (`lazy`): histories made ONLY of operations the library evaluates lazily (Booleans, batch Booleans,
+// rigid/affine transforms, Booleans on a temporary transformed view) over generic-position primitives, interleaved
+// with copies, assignments, moves, in-place ops and destructions; NOTHING is observed until the end of the
+// history.  The same program is then run eagerly (every result forced as soon as it exists) in a fresh pool, and
+// every object alive at the end must be the same solid in both runs (Status, IsEmpty, volume, area, bounding
+// box within 1e-7 relative): destroying, overwriting or moving some handles of a lazy expression DAG must not
+// change what the remaining handles evaluate to.  (Bit equality is not demanded: lazy evaluation may flatten
+// the tree differently, C03.)
+//
 // usage: c05_values <manifold-programs> <steps> <cross-programs> <steps>      generated run
 //        c05_values 0 0 <file>                                               replay (first line `kind 0 1 <0|1>`)
 #include <signal.h>
@@ -311,6 +320,94 @@ template <typename G> static ap::Step genStep(G& gen, hz::Rng& r, const std::vec
   return s;
 }
 
+
+// ------------------------------------------------------------------------------ lazy histories
+namespace lz {
+using ap::Step;
+inline void exec(const Step& s, std::vector<Manifold>& pool) {
+  auto S = [&](int i) -> const Manifold& { return pool.at(s.src.at(i)); };
+  auto A = [&](int i) { return s.arg.at(i); };
+  const std::string& op = s.op;
+  if (op == "gcube") pool.push_back(Manifold::Cube({A(0), A(1), A(2)}, true).Rotate(A(3), A(4), A(5)).Translate({A(6), A(7), A(8)}));
+  else if (op == "gsphere") pool.push_back(Manifold::Sphere(A(0), (int)A(1)).Rotate(A(2), A(3), 0).Translate({A(4), A(5), A(6)}));
+  else if (op == "tbool") {   // Boolean on a TEMPORARY transformed view of the first operand
+    Manifold t = S(0).Translate({A(1), A(2), A(3)});
+    int o = (int)A(0); pool.push_back(o == 0 ? t + S(1) : o == 1 ? t - S(1) : o == 2 ? t ^ S(1) : S(1) - t);
+  }
+  else if (op == "tview") pool.push_back(S(0).Rotate(A(0), A(1), A(2)).Translate({A(3), A(4), A(5)}));
+  else ap::exec(s, pool);
+}
+struct Gen {
+  hz::Rng& r; int nobj = 0;
+  explicit Gen(hz::Rng& r_) : r(r_) {}
+  double g(double lo, double hi) { return lo + (hi - lo) * (double)(1 + r.below(99991)) / 99993.0; }   // generic values: no two alike
+  int pick() { return (int)r.below(nobj); }
+  Step prim() {
+    Step s;
+    if (r.below(3)) { s.op = "gcube"; s.arg = {g(0.6, 1.6), g(0.6, 1.6), g(0.6, 1.6), g(0, 90), g(0, 90), g(0, 90), g(-0.7, 0.7), g(-0.7, 0.7), g(-0.7, 0.7)}; }
+    else { s.op = "gsphere"; s.arg = {g(0.5, 1.0), (double)(4 * (1 + r.below(3))), g(0, 90), g(0, 90), g(-0.7, 0.7), g(-0.7, 0.7), g(-0.7, 0.7)}; }
+    return s;
+  }
+  Step next() {
+    if (nobj < 2 || r.below(6) == 0) return prim();
+    Step s; int k = (int)r.below(100);
+    auto two = [&](const char* op) { s.op = op; s.src = {pick(), pick()}; };
+    if (k < 40) two(k < 16 ? "add" : k < 30 ? "sub" : "int");
+    else if (k < 46) { s.op = "batch"; int n = 2 + (int)r.below(3); for (int i = 0; i < n; i++) s.src.push_back(pick()); s.arg = {(double)(r.below(2) ? 0 : 2)}; }
+    else if (k < 70) { two("tbool"); s.arg = {(double)r.below(4), g(-0.4, 0.4), g(-0.4, 0.4), g(-0.4, 0.4)}; }
+    else if (k < 82) { s.op = "tview"; s.src = {pick()}; s.arg = {g(0, 45), g(0, 45), g(0, 45), g(-0.5, 0.5), g(-0.5, 0.5), g(-0.5, 0.5)}; }
+    else if (k < 90) { s.op = "translate"; s.src = {pick()}; s.arg = {g(-0.5, 0.5), g(-0.5, 0.5), g(-0.5, 0.5)}; }
+    else if (k < 95) { s.op = "scale"; s.src = {pick()}; s.arg = {g(0.7, 1.3), g(0.7, 1.3), g(0.7, 1.3)}; }
+    else { s.op = "mirror"; s.src = {pick()}; s.arg = {g(0.1, 1), g(0.1, 1), g(0.1, 1)}; }
+    return s;
+  }
+};
+// General position by construction: the two operands of every Boolean are built from DISJOINT sets of primitives
+// (each primitive has its own generic size, rotation and position), so no two operand surfaces coincide and the
+// lazily flattened and the eagerly nested evaluation produce the same surface, not only the same point set.
+// `leaves` tracks, per slot, the set of primitives (bit mask) its expression is built from.
+struct Leaves {
+  std::vector<uint64_t> m; int next = 0;
+  uint64_t fresh() { return 1ull << (next++ % 64); }
+  uint64_t at(int i) const { return i >= 0 && (size_t)i < m.size() ? m[i] : 0; }
+  // false = the step would combine operands sharing a primitive; otherwise updates the masks as the step does
+  bool apply(const Step& s0, bool check) {
+    Step s = s0; if (!s.op.empty() && s.op[0] == '~') s.op = s.op.substr(1);
+    const std::string& op = s.op; auto S = [&](size_t k) { return k < s.src.size() ? s.src[k] : -1; };
+    auto disjoint = [&]() { uint64_t acc = 0; for (int x : s.src) { if (acc & at(x)) return false; acc |= at(x); } return true; };
+    if (op == "gcube" || op == "gsphere") m.push_back(fresh());
+    else if (op == "tets") { int n = s.arg.empty() ? 1 : (int)s.arg[0]; for (int i = 0; i < n; i++) m.push_back(fresh()); }
+    else if (op == "add" || op == "sub" || op == "int" || op == "tbool" || op == "batch") {
+      if (check && !disjoint()) return false;
+      uint64_t acc = 0; for (int x : s.src) acc |= at(x); m.push_back(acc);
+    }
+    else if (op == "iadd" || op == "isub" || op == "iint") { if (check && (S(0) == S(1) || (at(S(0)) & at(S(1))))) return false; if (S(0) >= 0 && (size_t)S(0) < m.size()) m[S(0)] |= at(S(1)); }
+    else if (op == "copy" || op == "movector") m.push_back(at(S(0)));
+    else if (op == "assign" || op == "moveassign") { if (S(0) >= 0 && (size_t)S(0) < m.size()) m[S(0)] = at(S(1)); }
+    else if (op == "destroy" || op == "look" || op == "kind") {}
+    else m.push_back(at(S(0)));   // tview / translate / scale / mirror
+    return true;
+  }
+};
+struct Solid { int status; bool empty; double vol, area; double bb[6]; };
+inline Solid solidOf(const Manifold& m) {
+  Solid s; s.status = (int)m.Status(); s.empty = m.IsEmpty(); s.vol = m.Volume(); s.area = m.SurfaceArea(); Box b = m.BoundingBox();
+  double a[6] = {b.min.x, b.min.y, b.min.z, b.max.x, b.max.y, b.max.z}; memcpy(s.bb, a, sizeof a); return s;
+}
+inline bool nearRel(double a, double b, double scale) { return std::fabs(a - b) <= 1e-7 * scale; }
+inline std::string differ(const Solid& l, const Solid& e) {
+  char b[300];
+  if (l.status != e.status) { snprintf(b, sizeof b, "Status %d (lazy history) vs %d (eager)", l.status, e.status); return b; }
+  if (l.empty != e.empty) { snprintf(b, sizeof b, "IsEmpty %d (lazy history) vs %d (eager); volume %.9g vs %.9g", (int)l.empty, (int)e.empty, l.vol, e.vol); return b; }
+  if (e.empty) return "";
+  double ext = 1e-9; for (int i = 0; i < 3; i++) ext = std::max(ext, e.bb[i + 3] - e.bb[i]);
+  if (!nearRel(l.vol, e.vol, ext * ext * ext)) { snprintf(b, sizeof b, "Volume %.12g (lazy history) vs %.12g (eager)", l.vol, e.vol); return b; }
+  if (!nearRel(l.area, e.area, ext * ext)) { snprintf(b, sizeof b, "SurfaceArea %.12g (lazy history) vs %.12g (eager)", l.area, e.area); return b; }
+  for (int i = 0; i < 6; i++) if (!nearRel(l.bb[i], e.bb[i], ext)) { snprintf(b, sizeof b, "BoundingBox[%d] %.12g (lazy history) vs %.12g (eager)", i, l.bb[i], e.bb[i]); return b; }
+  return "";
+}
+}  // namespace lz
+
 static bool gReplay = false;
 // a crash of the real library in the middle of a history: the child still hands the event
 // stream recorded so far to the monitor (a write to a shared buffer is reported BEFORE it
@@ -319,8 +416,8 @@ static Recorder* gRec = nullptr; static std::string gTag; static int gKind = 0; 
 static void onCrash(int sig) {
   static volatile sig_atomic_t once = 0; if (once) _exit(98); once = 1;
   fflush(stdout);
-  std::string out = "CASE " + gTag + (gKind == 0 ? " manifold" : gKind == 1 ? " cross" : " impl") + " crashed=1 signal=" + std::to_string(sig) + " step=" + std::to_string(gStep) +
-                    " events=" + std::to_string(gRec ? gRec->n : 0) + "\nREQ " + (gRec ? "cow" + gRec->ev : std::string()) + "\nEXP " + (gRec ? "accepted" : "") + "\nPROP ok\n";
+  std::string out = "CASE " + gTag + (gKind == 0 ? " manifold" : gKind == 1 ? " cross" : gKind == 3 ? " lazy" : " impl") + " crashed=1 signal=" + std::to_string(sig) + " step=" + std::to_string(gStep) +
+                    " events=" + std::to_string(gRec ? gRec->n : 0) + "\nREQ " + (gRec ? "cow" + gRec->ev : std::string()) + "\nEXP " + (gRec ? "accepted" : "") + (gKind == 3 && gRec ? "\nPROP FAIL the lazy history crashed the library although the eager run of the same program completed\n" : "\nPROP ok\n");
   size_t off = 0; while (off < out.size()) { ssize_t w = write(1, out.data() + off, out.size() - off); if (w <= 0) break; off += (size_t)w; }
   _exit(97);
 }
@@ -359,6 +456,65 @@ static void runProgram(const std::string& tag, int kind, const std::vector<std::
     std::string h; for (auto& kv : run.opHist) h += " " + kv.first + "=" + std::to_string(kv.second);
     printf("OPS%s\n", h.c_str());
   }
+}
+
+
+// one lazy history + its eager twin (see the header comment, fourth family). The eager twin runs first (it also
+// drives the generator: liveness is the same in both runs); a crash of the library during the LAZY run is then a
+// result: the same legal program completed when every value was forced at once.
+static bool gLazyPhase = false;
+static void runLazyPair(const std::string& tag, const std::vector<std::string>* given, uint64_t seed, int L) {
+  auto mexec = [](const ap::Step& s, std::vector<Manifold>& pool) { lz::exec(s, pool); };
+  std::vector<ap::Step> prog; std::vector<lz::Solid> lazyS, eagerS; std::vector<int> liveSlots; std::map<std::string, int> hist;
+  bool ok = true; std::string msg;
+  gTag = tag; gKind = 3; gRec = nullptr; armCrashHandler();
+  {
+    Runner<MTraits> run; run.execOp = mexec;   // eager twin: every result observed at once
+    hz::Rng r(seed); lz::Gen gen(r); lz::Leaves leaves;
+    int n = given ? (int)given->size() : L;
+    for (int i = 0; i < n; i++) {
+      ap::Step s;
+      if (given) { if (!ap::parse((*given)[i], s)) continue; if (s.op == "kind") continue; }
+      else {
+        bool m;
+        for (int tries = 0;; tries++) {
+          s = genStep(gen, r, run.liveIdx(), 9, m);
+          if (s.op == "look") s.op = "copy";
+          if (tries >= 30) s = gen.prim();
+          lz::Leaves probe = leaves;
+          if (probe.apply(s, true)) break;             // operands of a Boolean never share a primitive
+        }
+        if (s.op[0] != '~') s.op = "~" + s.op;        // in the lazy run nothing is observed before the end
+        printf("PROG %s.%d %s\n", tag.c_str(), i + 1, ap::show(s).c_str());
+      }
+      fflush(stdout); gStep = i; prog.push_back(s); leaves.apply(s, false);
+      ap::Step e = s; if (e.op[0] == '~') e.op = e.op.substr(1);
+      hist[e.op]++;
+      run.step(e, i);
+    }
+    liveSlots = run.liveIdx();
+    for (int slot : liveSlots) eagerS.push_back(lz::solidOf(run.pool[slot]));
+    if (!run.ok) { ok = false; msg = "eager twin: " + run.msg; }
+  }
+  Recorder rec; rec.install(); gRec = &rec; gLazyPhase = true;
+  {
+    Runner<MTraits> run; run.execOp = mexec;
+    for (size_t i = 0; i < prog.size(); i++) { gStep = (int)i; run.step(prog[i], (int)i); }
+    std::vector<int> live2 = run.liveIdx();
+    if (live2 != liveSlots) { if (ok) { ok = false; msg = "lazy and eager run of the same program have different live slots"; } }
+    else for (size_t j = 0; j < liveSlots.size(); j++) {
+      lz::Solid l = lz::solidOf(run.pool[liveSlots[j]]);
+      std::string d = lz::differ(l, eagerS[j]);
+      if (!d.empty() && ok) { ok = false; msg = "slot " + std::to_string(liveSlots[j]) + " (never looked at before the end of the history) is a different solid than in the eager run of the same program: " + d; }
+    }
+    run.finish((int)prog.size());   // and the usual re-observation discipline from here on
+    if (!run.ok && ok) { ok = false; msg = run.msg; }
+    rec.uninstall(); gRec = nullptr; gLazyPhase = false;
+  }
+  std::ostringstream t; t << tag << " lazy steps=" << prog.size() << " live=" << liveSlots.size() << " events=" << rec.n << " shares=" << rec.nShare << " clones=" << rec.nClone;
+  hz::emit(t.str(), "cow" + rec.ev, "accepted", ok, msg);
+  std::string h; for (auto& kv : hist) h += " " + kv.first + "=" + std::to_string(kv.second);
+  printf("OPS%s\n", h.c_str());
 }
 
 // ------------------------------------------------------------- internal sharing discipline
@@ -425,7 +581,8 @@ int main(int argc, char** argv) {
     gReplay = true;
     std::ifstream f(argv[3]); std::string line; std::vector<std::string> lines; int kind = 0;
     while (std::getline(f, line)) { if (line.empty()) continue; ap::Step s; if (ap::parse(line, s) && s.op == "kind" && !s.arg.empty()) kind = (int)s.arg[0]; lines.push_back(line); }
-    if (kind == 0) runProgram<MTraits>("r0", 0, &lines, seed, 0, [](hz::Rng& r) { return ap::Gen(r, false); }, mexec, true);
+    if (kind == 2) runLazyPair("r0", &lines, seed, 0);
+    else if (kind == 0) runProgram<MTraits>("r0", 0, &lines, seed, 0, [](hz::Rng& r) { return ap::Gen(r, false); }, mexec, true);
     else runProgram<XTraits>("r0", 1, &lines, seed, 0, [](hz::Rng& r) { return cs::Gen(r); }, xexec, false);
     return 0;
   }
@@ -442,6 +599,11 @@ int main(int argc, char** argv) {
     inChild(tag, [&]() {
       runProgram<XTraits>(tag, 1, nullptr, seed * 200003 + p, LX + (p % 5) * LX / 4, [](hz::Rng& r) { return cs::Gen(r); }, xexec, false);
     });
+  }
+  int PL = argc > 5 ? atoi(argv[5]) : 0, LL = argc > 6 ? atoi(argv[6]) : 14;
+  for (int p = 0; p < PL; p++) {
+    std::string tag = "l" + std::to_string(p);
+    inChild(tag, [&]() { printf("PROG %s.0 kind 0 1 2\n", tag.c_str()); runLazyPair(tag, nullptr, seed * 300007 + p, LL + (p % 4) * 4); });
   }
   int nm = (int)(sizeof kImplMethods / sizeof kImplMethods[0]), idx = 0;
   for (int m = 0; m < nm; m++) for (int sh = 0; sh < 4; sh++) { int i = idx++; inChild("i" + std::to_string(i), [&]() { runImplCase(i, m, sh); }); }
